@@ -543,7 +543,8 @@ theorem parsePfamName_fullId (p : PfamX) (h : p.wf = true) : parsePfamName p.ful
 /-- what is read from the three written qualifiers: the same description, identifier and version, the gene
     ontology terms in the order of their ids, and the sorted ids as the `db_xref` leftovers -/
 theorem pfam_read_quals (p : PfamX) (h : p.wf = true) :
-    PfamX.read p.quals = .ok ({ p with go := p.go.map sortGo }, match p.go with | some g => sortStrs (g.map (·.1)) | none => []) := by
+    PfamX.read p.quals = .ok ({ p with go := p.go.map sortGo }, p.leftXref) := by
+  unfold PfamX.leftXref
   have hname := parsePfamName_fullId p h
   obtain ⟨desc, ident, version, go⟩ := p
   have hwf := h
